@@ -70,10 +70,17 @@ def obs_grid(rng, native, ok=True):
     from taurex.util.util import compute_bin_edges
     Wmid = compute_bin_edges(c)[1]
     W = float(Wmid.max())
-    if rng.random() < 0.5:
+    r = rng.random()
+    if r < 0.35:
         w = Wmid.copy()
-    else:
+    elif r < 0.65:
         w = Wmid * rng.uniform(0.3, 1.0, size=nb)       # narrower bins, gaps allowed
+    else:
+        # every bin as wide as the condition allows: up to the widest mid-point bin W (bins overlap their neighbours
+        # and the outermost ones stick out by up to W/2 - exactly what the clip margin W is for)
+        w = W * rng.uniform(0.6, 1.0, size=nb)
+    if rng.random() < 0.3:
+        c, w = c[::-1].copy(), w[::-1].copy()             # observation listed in descending wavenumber
     cond = bool(np.all(w <= W * (1 + 1e-12)) and spacing_max < W / 2)
     if not ok:
         w = w * rng.uniform(1.5, 3.0)
